@@ -21,6 +21,7 @@ RULE = ("Programs with 1-4 splitter fields (optional salt incl. non-ASCII, 1-3 r
         "and type. Non-trivial = (source, inputs) pair whose return statement has >=2 positive-weight groups and that was "
         "observed in >=2 contexts; distinct by (source, inputs).")
 RULE += (' Since rounds 6-7: a child whose cwd is full of decoy files named like the sources; refused recompiles followed by a roll-back; odd texts with literals at the 4300-digit limit; interpreter-wide settings compared after every step.')
+RULE += (' Since rounds 14-15: bursts of 700-3000 identical calls between observations; positional calls of the compiled function in every child; children with every environment variable the library consults set (none on the pinned tree); texts differing only in lone surrogates (judged if the tree accepts them).')
 ASSUMPTIONS = [
     "only CPython 3.12 and the C/POSIX/C.UTF-8 locales exist in this sandbox (tr_TR.UTF-8 falls back); other platforms are not reachable",
     "no reference hash scheme is used: C01 is about sameness, not about which group",
